@@ -1521,6 +1521,11 @@ def pre_gate(chk: Check) -> None:
     common.translation_gate(chk, py2lean_bellman, "Gen/BellmanGen.lean", ["Gen.BellmanGen", "Proofs.BellmanGenEq", "Props.C08"],
                             "soft_update, the soft-update calls of learn with their policy-delay condition, and the Bellman "
                             "target handed to the loss, of DQN / CQN / RainbowDQN / DDPG / TD3 / MADDPG / MATD3")
+    import py2lean_bellmanshape
+    common.translation_gate(chk, py2lean_bellmanshape, "Gen/BellmanShapeGen.lean",
+                            ["Gen.BellmanShapeGen", "Proofs.BellmanShapeGenEq", "Props.C08"],
+                            "the SHAPES (torch broadcasting) of prediction, target and element-wise loss at every loss call "
+                            "of learn of DQN / CQN / DDPG / TD3 / MADDPG / MATD3")
 
 
 def run(chk: Check) -> None:
@@ -1722,9 +1727,159 @@ def run(chk: Check) -> None:
                      f"{sensitive[0] + sensitive[1]} control cases")
     if sensitive[0] == 0 and sensitive[0] + sensitive[1] >= 3:
         raise InfraError("C08: the metamorphic comparison never saw a difference when a live row was perturbed (blind)")
+    run_shapes(chk)
     if chk.tier == "thorough":
         selftest(chk)
 
+
+
+# ----------------------------------------------------------------------------- suite 'shapes'
+SHAPE_ALGOS = ("DQN", "DQN-double", "CQN", "CQN-double", "DDPG", "TD3", "MADDPG", "MATD3")
+
+
+class n_actions:
+    """build agents whose action space has `a` actions (Discrete(a)) / `a` dimensions (Box)"""
+
+    def __init__(self, a: int):
+        self.a = a
+
+    def __enter__(self):
+        self.orig = agents.act_space
+        a, orig = self.a, self.orig
+
+        def act_space(kind, variant=0):
+            from gymnasium import spaces
+            if kind == "discrete":
+                return spaces.Discrete(a)
+            if kind == "box":
+                return spaces.Box(-1.0, 1.0, (a,), np.float32)
+            return orig(kind, variant)
+        agents.act_space = act_space
+        return self
+
+    def __exit__(self, *exc):
+        agents.act_space = self.orig
+        return False
+
+
+class loss_hook:
+    """records the shapes of the two tensors entering every `F.mse_loss` call (nn.MSELoss.forward goes through it)"""
+
+    def __enter__(self):
+        import torch.nn.functional as F
+        self.F, self.orig, self.calls = F, F.mse_loss, []
+        orig, calls = self.orig, self.calls
+
+        def mse_loss(input, target, *a, **kw):
+            calls.append((tuple(input.shape), tuple(target.shape)))
+            return orig(input, target, *a, **kw)
+        F.mse_loss = mse_loss
+        return self
+
+    def __exit__(self, *exc):
+        self.F.mse_loss = self.orig
+        return False
+
+
+def _map_fields(batch, idx_key, fn):
+    """the batch with field `idx_key` (2 reward / 4 done) of every agent mapped through fn"""
+    names = {2: "reward", 4: "done"}
+    form = agents.batch_form(batch)
+    if form in ("tensordict", "dict"):
+        batch = batch.clone() if hasattr(batch, "clone") else dict(batch)
+        batch[names[idx_key]] = fn(batch[names[idx_key]])
+        return batch
+    items = list(batch)
+    v = items[idx_key]
+    items[idx_key] = {k: fn(t) for k, t in v.items()} if isinstance(v, dict) else fn(v)
+    return agents.TupleBatch(tuple(items), form=form)
+
+
+def run_shape_case(case: dict) -> dict:
+    """(a) the real `learn` on a batch of B rows as the library's own buffers deliver it, with A actions: the shapes of
+    the batch fields (the hypotheses of C08_source_translation_loss_shapes) and of the tensors entering every loss
+    call (its conclusion: (B, 1) against (B, 1), exactly B loss entries);  (b) the same with reward / done flattened to
+    (B,): error, or silent broadcast to (B, B) as C08_source_translation_flat_reward_broadcasts_witness states"""
+    algo, B, A = case["algo"], int(case["B"]), int(case["A"])
+    base = base_algo(algo)
+    out = {"problems": [], "fields": {}, "calls": [], "flat": {}}
+    with n_actions(A):
+        c = {"algo": algo, "seed": case["seed"], "family": "vector", "opts": {"batch_size": B}}
+        agent = build_agent(c)
+        batch = agents.make_batch(agent, base, "vector", n=B, seed=int(case["seed"]) + 17, dones=[i % 2 for i in range(B)])
+    _o, act, rew, _n, don = unpack(batch)
+    for nm, f in (("reward", rew), ("done", don)):
+        shapes = sorted({tuple(t.shape) for t in (f.values() if isinstance(f, dict) else [f])})
+        out["fields"][nm] = shapes
+        if shapes != [(B, 1)]:
+            out["problems"].append(f"the library's buffer delivers `{nm}` with shape(s) {shapes}, the theorems assume ({B}, 1)")
+    with loss_hook() as h:
+        agent.learn(batch)
+    out["calls"] = list(h.calls)
+    want = 2 if base in ("TD3", "MATD3") else 1
+    n_ag = len(agent.agent_ids) if base in ("MADDPG", "MATD3") else 1
+    if len(h.calls) != want * n_ag:
+        out["problems"].append(f"{len(h.calls)} loss calls observed, {want * n_ag} in the translation")
+    for k, (sp, st) in enumerate(h.calls):
+        if sp != (B, 1) or st != (B, 1):
+            try:
+                elem = tuple(torch.broadcast_shapes(sp, st))
+            except RuntimeError:
+                elem = None
+            out["problems"].append(f"loss call {k}: prediction {sp} against target {st} (element-wise loss {elem}, "
+                                   f"{int(np.prod(elem)) if elem else 0} entries for a batch of {B} rows); Lean: ({B}, 1) / ({B}, 1)")
+    # (b) the other legal-looking layout
+    for which, idx in (("reward", 2), ("done", 4)):
+        with n_actions(A):
+            agent2 = build_agent(c)
+        flat = _map_fields(batch, idx, lambda t: t.reshape(-1))
+        try:
+            import warnings
+            with loss_hook() as h2, warnings.catch_warnings():
+                warnings.simplefilter("ignore")          # torch itself warns about the target size — and carries on
+                agent2.learn(flat)
+            obs = sorted({tuple(torch.broadcast_shapes(a, b)) for a, b in h2.calls})
+            out["flat"][which] = {"outcome": "silent", "elementwise": obs}
+            if obs != [(B, B)]:
+                out.setdefault("model_differs", []).append(
+                    f"flat `{which}` ({B},): the element-wise loss has shape(s) {obs}, the generated shape says ({B}, {B}) "
+                    f"(C08_source_translation_flat_reward_broadcasts_witness)")
+        except Exception as e:       # noqa: BLE001
+            out["flat"][which] = {"outcome": "error", "type": type(e).__name__, "msg": str(e)[:120]}
+    return out
+
+
+def run_shapes(chk: Check) -> None:
+    quick = chk.tier == "quick"
+    combos = [(b, a) for b in (1, 2, 5) for a in (1, 2, 3)]
+    n = dd = 0
+    flat_seen = {}
+    for algo in SHAPE_ALGOS:
+        todo = combos if not quick else [combos[i] for i in sorted(chk.rng.sample(range(len(combos)), 3))] + [(1, 1)]
+        for B, A in dict.fromkeys(todo):
+            case = {"suite": "shapes", "algo": algo, "B": B, "A": A, "seed": chk.rng.randrange(10 ** 6)}
+            try:
+                res = run_shape_case(case)
+            except Exception as e:       # noqa: BLE001
+                res = {"problems": [f"learn raised {type(e).__name__}: {str(e)[:200]} for a legal batch of {B} rows, {A} actions"],
+                       "flat": {}, "calls": [], "fields": {}}
+            n += 1
+            chk.case(("shapes", algo, B, A), nontrivial=B > 1, sample={"algo": algo, "B": B, "A": A, "calls": res["calls"]},
+                     tags=["shapes", algo, f"B={B}", f"A={A}"])
+            for w, r in res["flat"].items():
+                flat_seen.setdefault((base_algo(algo), w, r["outcome"] if r["outcome"] == "error" else
+                                      "silent " + str(r.get("elementwise"))[:40].replace(str(B), "B")), 0)
+            if res["problems"]:
+                dd += 1
+                chk.violation(f"C08 shapes: {algo} B={B} A={A}: {res['problems'][0]}", {"case": case, "problems": res["problems"],
+                                                                                       "observed": res})
+            elif res.get("model_differs"):
+                dd += 1
+                chk.violation(f"C08 shapes: {algo} B={B} A={A}: {res['model_differs'][0]}", {"case": case, "observed": res},
+                              no_input=True)
+    chk.suite("bellman-shapes", n, dd)
+    chk.notes.append("shapes (b): reward / done handed over FLAT `(B,)` instead of the `(B, 1)` the library's buffers deliver: "
+                     + "; ".join(f"{a} {w}: {o}" for (a, w, o) in sorted(flat_seen)))
 
 # ----------------------------------------------------------------------------- self-test
 def selftest(chk: Check) -> None:
@@ -1954,6 +2109,14 @@ def replay(chk: Check, path: str) -> int:
     c = json.loads(open(path).read())
     c = c.get("replay", c)
     case = c.get("case", c)
+    if case.get("suite") == "shapes":
+        res = run_shape_case(case)
+        print(json.dumps({"case": case, "observed": res}, indent=1, default=str))
+        if res["problems"]:
+            print(f"VIOLATION property=C08 replay={path}")
+            print(f"  -> {res['problems'][0]}"[:600])
+            return 1
+        return 0
     res = run_case(chk, case)
     if isinstance(res["detail"], dict):
         res["problems"] = res["problems"] + list(res["detail"].get("findings", [])) + \
